@@ -424,7 +424,7 @@ def r13(ctx, R):
     loops = [l for l in ast.walk(fn) if isinstance(l, ast.For) and any(isinstance(c, ast.Call) and isinstance(c.func, ast.Attribute) and c.func.attr in ('append', 'kron') and ('space' in ast.unparse(c).lower()) for c in ast.walk(l))]
     build = [l for l in loops if any(isinstance(c, ast.Call) and isinstance(c.func, ast.Attribute) and c.func.attr == 'append' for c in ast.walk(l))]
     mult = [l for l in loops if l not in build]
-    R.check(len(build) == 1 and ast.unparse(build[0].iter) == 'range(len(self.fine_prob.nvars))', 'mesh_to_mesh.__init__ :: one 1-d interpolation / restriction matrix per direction', w, 'for i in range(len(self.fine_prob.nvars))', [ast.unparse(l.iter) for l in build])
+    R.check(len(build) == 1 and ast.unparse(build[0].iter) in ('range(len(self.fine_prob.nvars))', 'range(len(self.coarse_prob.nvars))'), 'mesh_to_mesh.__init__ :: one 1-d interpolation / restriction matrix per direction', w, 'for i in range(len(self.fine_prob.nvars))', [ast.unparse(l.iter) for l in build])
     for l in mult:
         R.check(re.fullmatch(r'range\(1, len\((Pspace|Rspace|self\.fine_prob\.nvars)\)\)', ast.unparse(l.iter)) is not None, 'mesh_to_mesh.__init__ :: the Kronecker product takes in every remaining direction', w, 'for i in range(1, len(Pspace))', ast.unparse(l.iter))
     if len(mult) < 2:
